@@ -152,8 +152,9 @@ type fixture struct {
 	finalSigs    map[string]int
 	lastOp       *op
 	keepJournal  bool
-	stallSeen    bool // the FetchBlob stall finding has been established on this fixture
-	deathSeen    bool // the death of the current child process has been reported
+	stallSeen    bool           // the FetchBlob stall finding has been established on this fixture
+	deathSeen    bool           // the death of the current child process has been reported
+	leakedFDs    map[string]int // descriptors on cache files already reported for the current child
 }
 
 func runFixture(r *lib.Run, p plan, n int) {
@@ -208,6 +209,7 @@ func runFixture(r *lib.Run, p plan, n int) {
 			fx.leakCheck("periodic")
 		}
 		if fx.child.Exited() && !fx.dead {
+			sched.queue = nil // the rest of an interrupted request sequence is dropped
 			fx.recover()
 		}
 	}
@@ -269,6 +271,8 @@ func (fx *fixture) startChild() error {
 		return err
 	}
 	fx.child = c
+	fx.deathSeen = false
+	fx.leakedFDs = map[string]int{}
 	fx.logOff = 0
 	fx.srv = lib.AttachServer(c.HTTPAddr, c.GRPCAddr)
 	fx.srv.HTTPClient.Timeout = 0 // per-request contexts carry the deadline
@@ -372,6 +376,26 @@ func (fx *fixture) violation(key, what string, extra map[string]any) {
 	fx.r.Violation(key, what, fx.detail(extra))
 }
 
+// reportDeath reports the end of the current child process once.
+func (fx *fixture) reportDeath(ep, gen, what string, extra map[string]any) {
+	if fx.deathSeen {
+		return
+	}
+	fx.deathSeen = true
+	fx.child.WaitExit(5 * time.Second)
+	if extra == nil {
+		extra = map[string]any{}
+	}
+	if _, ok := extra["log"]; !ok {
+		_, text := fx.child.Panicked()
+		extra["log"] = text
+	}
+	extra["log_tail"] = fx.child.LogTail(1200)
+	extra["exited"] = fx.child.Exited()
+	extra["exit_code"] = fx.child.ExitCode()
+	fx.violation("C14:death:"+ep+":"+gen, what, extra)
+}
+
 // scanLog looks at the child's log written since the last scan.
 func (fx *fixture) scanLog() (string, string) {
 	f, err := os.Open(fx.child.LogPath)
@@ -437,15 +461,24 @@ func (fx *fixture) exec(o *op) result {
 
 // judge applies the per-request oracles.
 func (fx *fixture) judge(o *op, res result) {
+	marker, text := fx.scanLog()
+	if marker == "" && (o.abortOp || o.noRetry || strings.Contains(res.status, "(client-")) {
+		// The client left before the server was done: give the server a moment
+		// to trip over the request, so that a crash is attributed to this
+		// request and not to the next one (attribution only, not a verdict).
+		for i := 0; i < 10 && marker == "" && !fx.child.Exited(); i++ {
+			time.Sleep(4 * time.Millisecond)
+			marker, text = fx.scanLog()
+		}
+	}
 	// (1)/(2) panic text in the child's log.
-	if marker, text := fx.scanLog(); marker != "" {
+	if marker != "" {
 		if marker == "http: panic serving" {
 			fx.violation("C14:http-panic:"+o.ep+":"+o.gen, "an HTTP handler panicked (recovered by net/http, logged by the server) while serving the journalled request",
 				map[string]any{"log": text, "status": res.status})
 		} else {
-			fx.child.WaitExit(5 * time.Second)
-			fx.violation("C14:death:"+o.ep+":"+o.gen, fmt.Sprintf("the server process printed %q and died (exited=%v) on the journalled request", strings.TrimSpace(marker), fx.child.Exited()),
-				map[string]any{"log": text, "status": res.status, "exit_code": fx.child.ExitCode()})
+			fx.reportDeath(o.ep, o.gen, fmt.Sprintf("the server process printed %q and died on the journalled request", strings.TrimSpace(marker)),
+				map[string]any{"log": text, "status": res.status})
 			return
 		}
 	}
@@ -455,9 +488,7 @@ func (fx *fixture) judge(o *op, res result) {
 			fx.child.WaitExit(1500 * time.Millisecond)
 		}
 		if fx.child.Exited() {
-			_, text := fx.child.Panicked()
-			fx.violation("C14:death:"+o.ep+":"+o.gen, "the server process exited while serving the journalled request",
-				map[string]any{"log": text, "log_tail": fx.child.LogTail(1500), "status": res.status, "exit_code": fx.child.ExitCode()})
+			fx.reportDeath(o.ep, o.gen, "the server process exited while serving the journalled request", map[string]any{"status": res.status})
 			return
 		}
 		// Still able to answer at all?
@@ -482,6 +513,10 @@ func (fx *fixture) judge(o *op, res result) {
 				}
 			}
 		}
+	}
+	if fx.child.Exited() {
+		fx.reportDeath(o.ep, o.gen, "the server process exited while serving the journalled request", map[string]any{"status": res.status})
+		return
 	}
 	// (3) malformed request answered with success.
 	if o.mustFail && res.success {
@@ -515,18 +550,17 @@ func (fx *fixture) livenessCheck(when string) bool {
 	if o != nil {
 		ep, gen = o.ep, o.gen
 	}
+	if fx.deathSeen {
+		return false
+	}
 	if marker, text := fx.scanLog(); marker != "" && marker != "http: panic serving" {
-		fx.child.WaitExit(5 * time.Second)
-		fx.violation("C14:death:"+ep+":"+gen, "the server process printed a fatal error / panic",
-			map[string]any{"log": text, "when": when})
+		fx.reportDeath(ep, gen, "the server process printed a fatal error / panic", map[string]any{"log": text, "when": when})
 		return false
 	} else if marker != "" {
 		fx.violation("C14:http-panic:"+ep+":"+gen, "an HTTP handler panicked (recovered by net/http)", map[string]any{"log": text, "when": when})
 	}
 	if fx.child.Exited() {
-		_, text := fx.child.Panicked()
-		fx.violation("C14:death:"+ep+":"+gen, "the server process is gone",
-			map[string]any{"log": text, "log_tail": fx.child.LogTail(1500), "when": when, "exit_code": fx.child.ExitCode()})
+		fx.reportDeath(ep, gen, "the server process is gone", map[string]any{"when": when})
 		return false
 	}
 	_, err := fx.statusPage()
@@ -535,9 +569,7 @@ func (fx *fixture) livenessCheck(when string) bool {
 		return true
 	}
 	if fx.child.Exited() {
-		_, text := fx.child.Panicked()
-		fx.violation("C14:death:"+ep+":"+gen, "the server process is gone",
-			map[string]any{"log": text, "log_tail": fx.child.LogTail(1500), "when": when})
+		fx.reportDeath(ep, gen, "the server process is gone", map[string]any{"when": when})
 		return false
 	}
 	// /status did not answer within the generous deadline. Persistent state?
@@ -555,10 +587,17 @@ func (fx *fixture) livenessCheck(when string) bool {
 		return false
 	}
 	p1, p2 := parkedOnMutex(d1), parkedOnMutex(d2)
+	if len(p1) == 0 || len(p2) == 0 {
+		// silent, but no handler is parked on a lock below bazel-remote frames: not the persistent state we judge
+		fx.r.Inconclusive(fmt.Sprintf("%s: /status silent after %s/%s (%v) but no handler goroutine is parked on a lock in the dumps", fx.p.name, ep, gen, err))
+		fx.dead = true
+		return false
+	}
 	fx.violation("C14:wedged:"+ep+":"+gen,
 		fmt.Sprintf("after the journalled request /status no longer answers (two attempts of %v each); %d handler goroutines are parked on the cache mutex in two dumps 5 s apart: the server is wedged", statusWait, len(p2)),
 		map[string]any{"when": when, "status_error": err.Error(), "parked_first_dump": p1, "parked_second_dump": p2, "signatures": lib.SigString(lib.GoroutineSignatures(d2))})
-	// make the fixture usable again
+	// make the fixture usable again (the kill is ours, not a death of the server)
+	fx.deathSeen = true
 	fx.child.Kill()
 	return false
 }
